@@ -25,12 +25,18 @@ type job struct {
 	Path    string `json:"path"`
 	Content string `json:"content"`
 	Fail    string `json:"fail"` // o | p | w | b
+	// Persist end to end only: what the target file held before this call
+	// ("" = absent, longer | shorter | equal = a previous generation of that length relative to the new bytes)
+	Prev string `json:"previous,omitempty"`
 }
 
 type cfgT struct {
 	Conc  int   `json:"concurrency"`
 	HasPP bool  `json:"post_processor"`
 	Jobs  []job `json:"jobs"`
+	// Persist end to end only: the previous generation was written by an earlier Persist call
+	// into the same directory (otherwise by the harness directly)
+	PrevViaPersist bool `json:"previous_via_persist,omitempty"`
 }
 
 func (c cfgT) toks() string {
@@ -44,6 +50,28 @@ func (c cfgT) toks() string {
 		fmt.Fprintf(sb, " %s %s %s", vl.Hex(j.Path), vl.Hex(j.Content), j.Fail)
 	}
 	return sb.String()
+}
+
+// histToks: the previous generation (Persist end to end only), for keys
+func (c cfgT) histToks() string {
+	any := false
+	sb := &strings.Builder{}
+	for _, j := range c.Jobs {
+		any = any || j.Prev != ""
+		if j.Prev == "" {
+			sb.WriteString(" -")
+		} else {
+			sb.WriteString(" " + j.Prev)
+		}
+	}
+	if !any {
+		return ""
+	}
+	via := " previous(direct):"
+	if c.PrevViaPersist {
+		via = " previous(persist):"
+	}
+	return via + sb.String()
 }
 
 func (c cfgT) failPP(k int) bool { return c.HasPP && (c.Jobs[k].Fail == "p" || c.Jobs[k].Fail == "b") }
